@@ -83,6 +83,13 @@ class Models09(StateModels):
         if self.summarise_maybe_attach and f.qualname == 'TorState._maybe_attach':
             self.glog_add(path, 'maybe_attach_calls', tuple(args))
             return [(path, NONE)]
+        if f.qualname == 'TorState._attacher_error' and getattr(self, 'summarise_attacher_error', False):
+            # the error report (prints the failure and passes it on); logged so that 'reported' can be observed
+            self.glog_add(path, 'reported', args[0])
+            return [(path, args[0])]
+        if f.qualname == 'maybe_coroutine':
+            self.assumptions.add('util.maybe_coroutine passes a non-coroutine value through unchanged')
+            return [(path, args[0])]
         if f.qualname == 'Circuit.when_built':
             return [(path, VOpaque('Deferred', ex.fresh_int(path, 'builtd')))]
         if f.qualname == 'maybe_ip_addr':
@@ -192,17 +199,10 @@ def unit_prologue():
                        z3.Implies(z3.And(has_att, z3.Not(is_exit)), B(consulted)),
                        clause='every new attachable stream results in exactly one decision')
 
-            def is_fn(v, qual):
-                return isinstance(v, VFunc) and v.qualname.split('.')[-1] == qual
-            ok_chain = (len(chain) == 3 and all(c[0] is calls[0][0] for c in chain) if calls else False)
-            if ok_chain:
-                c0, c1, c2 = chain
-                mc = c0[2][0]
-                ok_chain = (c0[1] == 'addCallback' and (is_fn(mc, 'maybe_coroutine') or (isinstance(mc, VConc) and mc.obj is util.maybe_coroutine))
-                            and c1[1] == 'addCallback' and is_fn(c1[2][0], 'issue_stream_attach')
-                            and c2[1] == 'addErrback' and is_fn(c2[2][0], '_attacher_error') and len(c2[2]) == 1)
-            ctx.oblige('post.answer_chained_into_issue_stream_attach_then_error_report', p,
-                       z3.Implies(z3.And(has_att, z3.Not(is_exit)), B(ok_chain)),
+            # (what the registered callbacks do with the answer is the subject of the issue_stream_attach@<answer> units,
+            # which run them; here only: something is registered to receive the answer)
+            ctx.oblige('post.the_answer_is_received_by_registered_callbacks', p,
+                       z3.Implies(z3.And(has_att, z3.Not(is_exit)), B(bool(calls) and any(c[0] is calls[0][0] for c in chain))),
                        clause='the attacher answer is translated to one decision; invalid answers are reported')
     return run
 
@@ -230,17 +230,20 @@ def unit_issue(answer):
             ctx.oblige('prologue_has_a_normal_exit', path, B(False))
             return
         for p0, _ in outs:
-            chain = ctx.models.glog(p0, 'chain')
-            fn = [c[2][0] for c in chain if isinstance(c[2][0], VFunc) and c[2][0].qualname.endswith('issue_stream_attach')]
-            if len(fn) != 1:
-                ctx.oblige('post.attachable_stream_answer_reaches_issue_stream_attach', p0, B(False),
+            calls = ctx.models.glog(p0, 'maybeDeferred')
+            if len(calls) != 1:
+                ctx.oblige('post.attachable_stream_consults_the_attacher_once', p0, B(False),
                            clause='every new attachable stream results in exactly one decision')
                 continue
-            _issue_on(ctx, p0, fn[0], answer, st, sid)
+            from pyvc import chain as CH
+            entries = CH.entries_of(ctx.models.glog(p0, 'chain'), calls[0][0])
+            _issue_on(ctx, p0, entries, answer, st, sid)
     return run
 
 
-def _issue_on(ctx, p0, fn, answer, st, sid):
+def _issue_on(ctx, p0, entries, answer, st, sid):
+    """the attacher's answer travels down the callbacks registered on the maybeDeferred (run, not pattern-matched)"""
+    from pyvc import chain as CH
     import txtorcon.torstate as ts
     import txtorcon.circuit as cm
     import txtorcon.stream as sm
@@ -273,12 +276,12 @@ def _issue_on(ctx, p0, fn, answer, st, sid):
             ctx.cover('pre_unknown', p0, z3.Not(known))
             ctx.cover('pre_not_built', p0, z3.And(known, cstate != mk_str('BUILT')))
         n0 = len(ctx.models.glog(p0, 'proto_calls'))
-        for p, r in ex.call(p0, fn, [arg], {}):
+        ctx.models.summarise_attacher_error = True
+        for p, r, failed in CH.run(ex, p0, entries, arg, models=ctx.models):
             sent = ctx.models.glog(p, 'proto_calls')[n0:]
-            raised = isinstance(r, Raise)
-            rt_err = raised and isinstance(r.exc, VInst) and r.exc.cls is RuntimeError
-            if raised and not rt_err:
-                ctx.notes.append('raise path: %r' % (r.exc,))
+            reported = ctx.models.glog(p, 'reported')
+            rt_err = len(reported) == 1 and isinstance(reported[0], VInst) and reported[0].cls is RuntimeError
+            raised = len(reported) > 0 or failed
 
             def one_attach(circ_text):
                 if len(sent) != 1 or sent[0][0] != 'queue_command' or len(sent[0][1]) != 1 or not isinstance(sent[0][1][0], VBytes):
